@@ -76,6 +76,23 @@ def make (spec0):
         wires.append ([a, len (nodes) - 1, 1])
         K += 1
     seg_min = min (np.linalg.norm (nodes [a] - nodes [b]) / n for a, b, n in wires)
+    # tapered wires: the shortest segment of the structure (which sets the matching tolerance) is then the first
+    # segment of a taper; it is read from the program's own segmentation of the exact structure (C13 decides that
+    # segmentation), the near misses below are placed relative to it
+    rt = np.random.default_rng ([spec0 ['seed'], 124, spec0 ['i']])
+    tapers = {}
+    if rt.random () < 0.25:
+        for wi, (a, b, n) in enumerate (wires):
+            if n >= 2 and rt.random () < 0.5:
+                tapers [wi] = [int (rt.integers (1, 4)), None, None]
+        if tapers:
+            pre = dict ( f = 7.0, media = ([[0, 0, 0]] if gnd else None), src = [], loads = []
+                       , geo = [gen.wire (n, nodes [a], nodes [b], 1e-4 * seg_min, tag = wi + 1, taper = tapers.get (wi)) for wi, (a, b, n) in enumerate (wires)])
+            try:
+                mp = gen.build (pre)
+                seg_min = min (float (s.seg_len) for g in mp.geo for s in g.segments)
+            except (common.Rejected, common.Repo_Crash):
+                tapers = {}
     tol  = 1e-3 * seg_min
     # wire radius below and above the matching tolerance (1e-3 of the shortest segment)
     rfac = float (np.random.default_rng ([spec0 ['seed'], 122, spec0 ['i']]).choice ([1e-4, 1e-4, 3e-3, 1e-2]))
@@ -124,6 +141,14 @@ def make (spec0):
         for g, t in zip (geo, tags):
             if rng.random () < 0.8:
                 g ['tag'] = int (t)
+    # tapers only on wires that carry an explicit tag (the option names a tag): where tapers are planned every wire gets one
+    if tapers and any (g.get ('tag') is None for g in geo):
+        for g, t in zip (geo, rt.permutation (np.arange (1, len (geo) + 1) * int (rt.integers (1, 4))).tolist ()):
+            g ['tag'] = int (t)
+    for wi, g in enumerate (geo):
+        if wi in tapers and g.get ('tag') is not None:
+            g ['taper'] = tapers [wi]
+    tol_from_model = bool (tapers)
     arc = None
     if not gnd and rng.random () < 0.12:
         # a 360 degree arc closed on itself, optionally a wire attached to its start point
@@ -132,7 +157,7 @@ def make (spec0):
         arc = dict (k = 'a', n = n, radius = rad, a1 = 0.0, a2 = 360.0, r = 1e-4 * seg_min, tag = None)
         tr  = [100 * scale, 0, 0]
     spec = dict ( f = 7.0, geo = geo, media = ([[0, 0, 0]] if gnd else None), src = [], loads = []
-                , ends = ends, wires = wires, tol = tol, arc = arc)
+                , ends = ends, wires = wires, tol = tol, arc = arc, tol_from_model = tol_from_model)
     if arc:
         spec ['geo'] = [arc] + geo
         spec ['tr']  = [['translate', 1.0, tr, None]]
@@ -161,7 +186,7 @@ def make (spec0):
     return spec
 # end def make
 
-def expected (spec):
+def expected (spec, m = None):
     """ expected pulse positions by construction: interior joints of every
         wire, one per grounded end, k - 1 per cluster of k joined ends
     """
@@ -173,7 +198,13 @@ def expected (spec):
     if spec.get ('gcurve'):
         off = np.zeros (3)          # only the curve (tag 1) is translated
     pts   = []
+    fac0 = float (spec ['sc'][0][0]) if spec.get ('sc') else 1.0
     for g in geo:
+        if g.get ('taper') and m is not None:
+            # interior joints of a tapered wire as the program segments it (decided by C13), brought back before the scaling
+            obj = {x.tag: x for x in m.geo} [g ['tag']]
+            pts += [np.asarray (s.p2, float) / fac0 for s in obj.segments [:-1]]
+            continue
         nd = georef.wire_nodes (g ['p1'], g ['p2'], g ['n'])
         pts += [p + off for p in nd [1:-1]]
     n_int = len (pts)
@@ -238,12 +269,19 @@ def expected (spec):
 
 def check (spec0):
     spec = spec0 if 'geo' in spec0 else make (spec0)
-    pts, sizes, n_gnd, n_int = expected (spec)
+    m    = gen.build (spec)
+    if spec.get ('tol_from_model') or any (g.get ('taper') for g in spec ['geo']):
+        # the matching tolerance is 1e-3 of the shortest segment the structure really has
+        t_real = 1e-3 * min (float (s.seg_len) for g in m.geo for s in g.segments) / (float (spec ['sc'][0][0]) if spec.get ('sc') else 1.0)
+        if abs (t_real - spec ['tol']) > 0.01 * spec ['tol']:
+            # the near misses were placed relative to another shortest segment (a planned taper went to a wire without tag)
+            return dict (status = 'discard', reason = 'shortest segment differs from the planned one')
+        spec ['tol'] = t_real
+    pts, sizes, n_gnd, n_int = expected (spec, m)
     if not pts:
         return dict (status = 'discard', reason = 'no pulses expected')
     if spec.get ('_edge'):
         return dict (status = 'discard', reason = 'two ends within 3 % of the matching tolerance')
-    m    = gen.build (spec)
     tol  = spec ['tol']
     fac  = float (spec ['sc'][0][0]) if spec.get ('sc') else 1.0
     viol = []
@@ -341,7 +379,7 @@ def check (spec0):
     sig = '|'.join (str (x) for x in
         ( 'gnd' if spec ['media'] else 'free', sorted (sizes), n_gnd, classes
         , 'seg1' if any (w [2] == 1 for w in spec ['wires']) else '', 'arc' if spec.get ('arc') else ('gcurve-' + spec ['gcurve']['k'] if spec.get ('gcurve') else '')
-        , 'T' if any (g.get ('tag') for g in spec ['geo']) else 'a', 'sc' if fac != 1 else ''))
+        , 'T' if any (g.get ('tag') for g in spec ['geo']) else 'a', 'sc' if fac != 1 else '', 'tap%s' % sorted (set (g ['taper'][0] for g in spec ['geo'] if g.get ('taper')))))
     return dict ( status = 'violation' if viol else 'held', sig = sig
                 , nontrivial = bool (sizes and max (sizes) >= 2 or n_gnd), monitors = mon, violations = viol [:6]
                 , info = dict (N = len (m.pulses), sizes = sorted (sizes), n_gnd = n_gnd))
